@@ -118,7 +118,7 @@ func randomInput(r *hx.Rand) Input {
 func gen(r *hx.Rand, tier string) []json.RawMessage {
 	n := 320
 	if tier == "thorough" {
-		n = 4000
+		n = 2500
 	}
 	var out []json.RawMessage
 	add := func(in Input) { out = append(out, hx.J(in)) }
